@@ -54,6 +54,16 @@ Theorem c08_answered_stays_unknown : forall s q is_exc e, InvR s -> find_key q (
 Proof. exact answered_stays_unknown. Qed.
 Theorem c08_send_failure_unregisters : forall s cb, callbacks (req_step s (ERequest cb false)) = callbacks s.
 Proof. exact send_failure_unregisters. Qed.
+(* a response whose payload cannot be rebuilt at the requester (e.g. an exception class that cannot be re-created there): on a tree that
+   guards the decoding it is routed exactly like an exception response to the same request; on a tree that does not, nothing changes at
+   the requester - the request is never completed and its callback stays registered (refutation of "every response is delivered") *)
+Theorem c08_undecodable_response : forall s q, req_step s (EUndecodable q true) = req_step s (EResponse q true).
+Proof. intros s q. exact (proj1 (undecodable_response s q)). Qed.
+Theorem c08_undecodable_response_refuted_when_unguarded : forall s q cb, find_key q (callbacks s) = Some cb ->
+  find_key q (callbacks (req_step s (EUndecodable q false))) = Some cb /\ log (req_step s (EUndecodable q false)) = log s.
+Proof. intros s q cb H. rewrite (proj2 (undecodable_response s q)). auto. Qed.
+Print Assumptions c08_undecodable_response.
+Print Assumptions c08_undecodable_response_refuted_when_unguarded.
 Print Assumptions c08_registered_numbers_distinct.
 Print Assumptions c08_routing.
 Print Assumptions c08_answered_stays_unknown.
@@ -63,8 +73,8 @@ Print Assumptions c08_send_failure_unregisters.
       while the tree encodes replies outside the guard it does not hold and theorem 2 is the live one. *)
 Theorem c08_tie : Gen_dispatch.unpack_in_try = true /\ Gen_dispatch.unbox_in_try = true /\ Gen_dispatch.handler_in_try = true
   /\ Gen_dispatch.dispatch_routing_is_standard = true /\ Gen_dispatch.callback_popped_then_called = true
-  /\ Gen_dispatch.async_request_registers_then_sends_and_pops_on_failure = true.
-Proof. pose proof tie_guarded_region. pose proof tie_requester. tauto. Qed.
+  /\ Gen_dispatch.async_request_registers_then_sends_and_pops_on_failure = true /\ Gen_dispatch.response_decode_guarded = true.
+Proof. pose proof tie_guarded_region. pose proof tie_requester. repeat split; tauto. Qed.
 Print Assumptions c08_tie.
 Theorem c08_live : (fully_guarded Pgen = true) \/ (Proto.reply_encode_guarded Pgen = false) \/ (Proto.exc_encode_guarded Pgen = false).
 Proof. vm_compute. tauto. Qed.
